@@ -12,9 +12,11 @@
   R6  the aggregate upserts run whenever the billed duration changes, in either direction: every condition enclosing an upsert (IF
       nesting, ELSE branches, code after `IF .. THEN LEAVE`) is TRUE for every (OLD row, stored row) pair that the writers of attempts
       and the BEFORE UPDATE trigger can produce (the order domain of C03: the before-trigger's outputs are the after-trigger's inputs)
-      with f(NEW) != f(OLD); for the insert trigger: for every current attempt row with f > 0.  Guards are evaluated with the
-      three-valued evaluator on numeric realisations of each ordering class (all gap patterns when the sign of the difference is
-      not fixed by the ordering); a guard that depends on data outside the attempt row is declined.
+      with f(NEW) != f(OLD); for the insert trigger: for every current attempt row with f > 0.  Decided symbolically per ordering class:
+      D = f(NEW) - f(OLD) and every arithmetic comparison in a guard are linear forms over the gaps between consecutive timestamps of
+      the class (each gap an integer >= 1), whose possible signs follow from the coefficient signs; where the ordering does not fix the
+      sign of D the class is split by it.  No concrete values are evaluated (numbers only appear in the printed witness).  A guard that
+      depends on data outside the attempt row, or whose truth is correlated with D in a way the split does not capture, is declined.
 Not decided: attribution across a UTC date roll-over, numeric totals.
 """
 from __future__ import annotations
@@ -126,21 +128,35 @@ def fact_text(f: Fact) -> str:
     return 'NOT (' + ' AND '.join(fact_text(x) for x in f[1]) + ')'
 
 
-def eval_fact(f: Fact, known) -> str:
-    """'T' | 'F' | 'U' (depends on data the domain does not fix)."""
+def fact_status(f: Fact, ce: af.CondEval) -> str:
+    """'T' holds for every realisation of the class | 'F' for none | 'V' exactly: for some but not all | 'U' not decided."""
     if f[0] == 'atom':
-        m = may(f[1], known)
-        if m == {True}:
-            return 'T' if f[2] else 'F'
-        if m == {False}:
-            return 'F' if f[2] else 'T'
+        r = ce.truth(f[1])
+        if r[0] == 'const':
+            return 'T' if (r[1] is True) == f[2] else 'F'
+        if r[0] == 'var':
+            outs = {(o is True) == f[2] for o in r[1]}
+            return 'T' if outs == {True} else ('F' if outs == {False} else 'V')
         return 'U'
-    vals = [eval_fact(x, known) for x in f[1]]
+    vals = [fact_status(x, ce) for x in f[1]]
     if any(v == 'F' for v in vals):
         return 'T'
     if all(v == 'T' for v in vals):
         return 'F'
+    if vals.count('V') == 1 and all(v in ('T', 'V') for v in vals):
+        return 'V'
     return 'U'
+
+
+def fact_numeric(f: Fact, known) -> Optional[bool]:
+    """Only used to pick the numbers printed in a witness (never for a verdict)."""
+    if f[0] == 'atom':
+        m = may(f[1], known)
+        return None if len(m) != 1 else (next(iter(m)) == f[2])
+    vals = [fact_numeric(x, known) for x in f[1]]
+    if any(v is False for v in vals):
+        return True
+    return False if all(v is True for v in vals) else None
 
 
 def _is_prefix(a: Tuple[Fact, ...], b: Tuple[Fact, ...]) -> bool:
@@ -182,19 +198,21 @@ def f_value(s: Optional[int], r: Optional[int]) -> int:
     return max(r - s, 0) if s is not None and r is not None else 0
 
 
-def _realisations(ranks: Sequence[Optional[int]], vary: bool) -> Iterator[Dict[int, int]]:
-    """rank -> number.  With `vary`, every pattern of small/large gaps between consecutive ranks (covers each sign the difference of two
-    durations can take within one ordering class)."""
-    ks = sorted({x for x in ranks if x is not None})
-    if not ks:
-        yield {}
-        return
-    pats = itertools.product((1, 1000), repeat=len(ks) - 1) if vary else [tuple(1000 for _ in ks[1:])]
-    for gaps in pats:
-        val = {ks[0]: 0 if ks[0] == af.ZERO else 1000}
-        for k0, k1, g in zip(ks, ks[1:], gaps):
-            val[k1] = val[k0] + g
-        yield val
+def _lin_f(s_: Optional[int], r_: Optional[int]) -> af.Lin:
+    """f = GREATEST(COALESCE(rollup - start, 0), 0) as a linear form over the rank atoms of an ordering class."""
+    if s_ is None or r_ is None or r_ <= s_:
+        return af._lin({}, 0)
+    return af._lin_add(af._lin({r_: 1}, 0), af._lin({s_: 1}, 0), -1)
+
+
+def _numbers(ranks: Sequence[Optional[int]], gaps: Sequence[int]) -> Dict[int, int]:
+    ks = sorted({x for x in ranks if x is not None and x != af.ZERO})
+    val = {af.ZERO: 0}
+    acc = 0
+    for k, g in zip(ks, gaps):
+        acc += g
+        val[k] = acc
+    return val
 
 
 _points_cache: Dict[int, List[Tuple[str, str, Dict[str, Any], Dict[str, Any]]]] = {}
@@ -220,9 +238,10 @@ def attempt_row_changes(ctx: Ctx, prog: sf.SqlProgram) -> List[Tuple[str, str, D
             key = (tuple(old[c] for c in af.COLS), tuple(stored[c] for c in af.COLS))
             if key not in seen:
                 seen.add(key)
-                out.append((w.wid, label, old, stored))
+                out.append((w.wid, label, old, stored, new['reason'] in zero))
     # witnesses are taken in this order: OLD rows that real histories produce first (reason set iff end set, not an activation timeout)
-    out.sort(key=lambda p: ((p[2]['reason'] is None) != (p[2]['end_time'] is None), p[2]['reason'] in zero))
+    out.sort(key=lambda p: ((p[2]['reason'] is None) != (p[2]['end_time'] is None), p[2]['reason'] in zero, p[3]['reason'] in zero, p[4]))
+    out = [p[:4] for p in out]
     _points_cache[id(prog)] = out
     ctx.unit('attempt_row_changes', len(out))
     return out
@@ -258,45 +277,76 @@ def _guard_verdict_update(facts: Tuple[Fact, ...], points) -> tuple:
 
 
 def _guard_verdict_update0(facts: Tuple[Fact, ...], points) -> tuple:
+    """Abstract decision per ordering class of (OLD row, stored row): D = f(NEW) - f(OLD) as a linear form over the gaps of the class;
+    classes where D is identically 0 carry no obligation; where the sign of D is not fixed by the ordering the class is split by that sign."""
     undecided: Optional[str] = None
     cases = 0
     uses_reason = any(n.kind == 'col' and n.parts[-1].lower() == 'reason' for f in facts for n in _fact_nodes(f))
     done = set()
     for wid, label, old, new in points:
-        so, ro, sn, rn = old['start_time'], old['rollup_time'], new['start_time'], new['rollup_time']
-        pos_o = so is not None and ro is not None and ro > so
-        pos_n = sn is not None and rn is not None and rn > sn
-        if not pos_o and not pos_n:
-            continue
-        if pos_o and pos_n and (so, ro) == (sn, rn):
-            continue
         pk = (tuple(old[c] for c in af.TIME_COLS), tuple(new[c] for c in af.TIME_COLS)) + ((old['reason'], new['reason']) if uses_reason else ())
         if pk in done:
             continue
         done.add(pk)
         ranks = [old[c] for c in af.TIME_COLS] + [new[c] for c in af.TIME_COLS]
-        for val in _realisations(ranks, vary=pos_o and pos_n):
-            ov = {c: (None if old[c] is None else val[old[c]]) for c in af.TIME_COLS}
-            nv = {c: (None if new[c] is None else val[new[c]]) for c in af.TIME_COLS}
-            ov['reason'], nv['reason'] = old['reason'], new['reason']
-            d = f_value(nv['start_time'], nv['rollup_time']) - f_value(ov['start_time'], ov['rollup_time'])
-            if d == 0:
-                continue
-            cases += 1
+        basis = af.GapBasis(ranks)
+        dlin = af._lin_add(_lin_f(new['start_time'], new['rollup_time']), _lin_f(old['start_time'], old['rollup_time']), -1)
+        da, dc = basis.coeffs(dlin)
+        cn, cz, cp = af.sign_info(da, dc)
+        if cn is False and cp is False:
+            continue        # the billed duration does not change in this class
 
-            def known(n: N):
-                if n.kind == 'col' and len(n.parts) == 2 and n.parts[0].upper() in ('OLD', 'NEW') and n.parts[1].lower() in af.COLS:
-                    return (ov if n.parts[0].upper() == 'OLD' else nv)[n.parts[1].lower()]
-                return UNKNOWN
+        def leaf(n: N):
+            if n.kind == 'col' and len(n.parts) == 2 and n.parts[0].upper() in ('OLD', 'NEW') and n.parts[1].lower() in af.COLS:
+                return (old if n.parts[0].upper() == 'OLD' else new)[n.parts[1].lower()]
+            raise af.UnknownLeaf(text(n))
+        sigmas = [sg for sg, can in ((-1, cn), (1, cp)) if can]
+        split = not (len(sigmas) == 1 and cz is False)
+        for sg in sigmas:
+            cases += 1
+            ce = af.CondEval(leaf, basis, pivot=(da, dc) if split else None, pivot_sign=sg)
             for f in facts:
-                v = eval_fact(f, known)
-                if v == 'F':
-                    return ('bad', f, wid, label, ov, nv, d)
+                v = fact_status(f, ce)
+                if v in ('F', 'V'):
+                    return ('bad', f, wid, label) + _witness_update(f, old, new, ranks, da, sg, v)
                 if v == 'U' and undecided is None:
                     undecided = fact_text(f)
     if undecided is not None:
         return ('undecided', undecided)
     return ('ok', cases)
+
+
+def _witness_update(f: Fact, old: Dict[str, Any], new: Dict[str, Any], ranks, da: Tuple[int, ...], sg: int, status: str) -> tuple:
+    """Numbers for the message of an already established violation: a realisation of the class with sign(D) = sg (and, for a condition
+    that fails only for part of the class, one on which it fails)."""
+    n = len(da)
+    base = [1000 if a * sg >= 0 else 1 for a in da]
+    cands = [base] + [list(g) for g in itertools.product((1, 1000), repeat=n)] + [[2000 if x == 1000 else 1 for x in base]]
+    pick = None
+    for gaps in cands:
+        val = _numbers(ranks, gaps)
+        ov = {c: (None if old[c] is None else val[old[c]]) for c in af.TIME_COLS}
+        nv = {c: (None if new[c] is None else val[new[c]]) for c in af.TIME_COLS}
+        ov['reason'], nv['reason'] = old['reason'], new['reason']
+        d = f_value(nv['start_time'], nv['rollup_time']) - f_value(ov['start_time'], ov['rollup_time'])
+        if d == 0 or (d > 0) != (sg > 0):
+            continue
+
+        def known(x: N):
+            if x.kind == 'col' and len(x.parts) == 2 and x.parts[0].upper() in ('OLD', 'NEW') and x.parts[1].lower() in af.COLS:
+                return (ov if x.parts[0].upper() == 'OLD' else nv)[x.parts[1].lower()]
+            return UNKNOWN
+        if pick is None:
+            pick = (ov, nv, d)
+        if fact_numeric(f, known) is False:
+            pick = (ov, nv, d)
+            break
+    if pick is None:
+        val = _numbers(ranks, [1000] * n)
+        ov = {c: (None if old[c] is None else val[old[c]]) for c in af.COLS[:3]}
+        nv = {c: (None if new[c] is None else val[new[c]]) for c in af.COLS[:3]}
+        pick = (ov, nv, f_value(nv['start_time'], nv['rollup_time']) - f_value(ov['start_time'], ov['rollup_time']))
+    return pick
 
 
 def _fact_nodes(f: Fact) -> Iterator[N]:
@@ -308,35 +358,38 @@ def _fact_nodes(f: Fact) -> Iterator[N]:
 
 
 def check_guards_insert(ctx: Ctx, r: sf.Routine, cons: str, st: N, facts: Tuple[Fact, ...], bound: Dict[str, Tuple[str, str, N]]) -> None:
-    """R6 for the AFTER INSERT trigger on attempt_resources: the current attempt row (start, rollup) is arbitrary."""
+    """R6 for the AFTER INSERT trigger on attempt_resources: the current attempt row is arbitrary (any ordering class with rollup > start)."""
     if not facts:
         ctx.ok('R6', cons, 'unconditional')
         return
     undecided: Optional[str] = None
     cases = 0
-    for s_, r_ in af.weak_orderings(2):
-        if not (s_ is not None and r_ is not None and r_ > s_):
+    for ordv in af.weak_orderings(3):
+        row = dict(zip(af.TIME_COLS, ordv))
+        s_, r_ = row['start_time'], row['rollup_time']
+        if not (s_ is not None and r_ is not None and r_ > s_) or not af.inv(row):
             continue
-        for val in _realisations([s_, r_], vary=True):
-            row = {'start_time': val[s_], 'rollup_time': val[r_]}
-            cases += 1
+        cases += 1
+        basis = af.GapBasis(list(ordv))
 
-            def known(n: N):
-                if sr.is_var(n) and n.parts[0].lower() in bound and bound[n.parts[0].lower()][0] == 'attempts' and bound[n.parts[0].lower()][1] in row:
-                    return row[bound[n.parts[0].lower()][1]]
-                return UNKNOWN
-            for f in facts:
-                v = eval_fact(f, known)
-                if v == 'F':
-                    ctx.bad('R6', cons, f'the upsert is skipped for a resource registered after the attempt was already billed: the enclosing condition `{fact_text(f)}` is not TRUE for an attempt row with '
-                            f'start_time={row["start_time"]}, rollup_time={row["rollup_time"]} (billed {row["rollup_time"] - row["start_time"]} ms): quantity x billed time of the new resource never reaches the aggregate',
-                            r.file, r.line_of(st), extra={'attempt_row': row, 'condition': fact_text(f)})
-                    return
-                if v == 'U' and undecided is None:
-                    undecided = fact_text(f)
+        def leaf(n: N):
+            if sr.is_var(n) and n.parts[0].lower() in bound and bound[n.parts[0].lower()][0] == 'attempts' and bound[n.parts[0].lower()][1] in row:
+                return row[bound[n.parts[0].lower()][1]]
+            raise af.UnknownLeaf(text(n))
+        ce = af.CondEval(leaf, basis)
+        for f in facts:
+            v = fact_status(f, ce)
+            if v in ('F', 'V'):
+                part = 'for every such row' if v == 'F' else 'for some such rows (depending on how far the times are apart)'
+                ctx.bad('R6', cons, f'the upsert is skipped for a resource registered after the attempt was already billed: the enclosing condition `{fact_text(f)}` is not TRUE {part} '
+                        f'when the attempt row has {af.realise(row)} (billed time > 0): quantity x billed time of the new resource never reaches the aggregate',
+                        r.file, r.line_of(st), extra={'attempt_row_class': af.realise(row), 'condition': fact_text(f)})
+                return
+            if v == 'U' and undecided is None:
+                undecided = fact_text(f)
     if undecided is not None:
         raise AnalysisError(f'{cons}: the upsert is conditional on `{undecided}`, which depends on data outside the attempt row; cannot decide whether increments are skipped')
-    ctx.ok('R6', cons, {'conditions': [fact_text(f) for f in facts], 'attempt_rows_with_billed_time': cases})
+    ctx.ok('R6', cons, {'conditions': [fact_text(f) for f in facts], 'attempt_row_classes_with_billed_time': cases})
 
 
 def check_trigger(ctx: Ctx, prog: sf.SqlProgram, r: sf.Routine, kind: str) -> None:
